@@ -13,7 +13,7 @@
    and l1 after.  [eser] is the never re-used serial number of one registration ("the timer");
    [earm e] is the time e was registered or last re-armed, [enext e] its deadline (m_next). *)
 From OlaBase Require Import Bytes.
-From C16 Require Import Gen Model Proofs Invariant Invariant2 Timers Due PModel PProofs PClose PAgree PAgreeW PHaz PWf PLive PAbs PSimS PSimE PSim PReg.
+From C16 Require Import Gen Model TimeVal Proofs Invariant Invariant2 Timers Due PModel PProofs PClose PAgree PAgreeW PHaz PWf PLive PAbs PSimS PSimE PSim PReg.
 Local Open Scope N_scope.
 
 Definition allocator_ok (alloc : list N -> N -> N) : Prop :=
@@ -245,6 +245,25 @@ Example c16_selfcancel_reuse_fires :
   end = true.
 Proof. vm_compute. reflexivity. Qed.
 
+(* Intervals are handed to the TimeoutManager as TimeInterval structs (a struct timeval).  For every interval built
+   with the constructors and operators of ola::TimeInterval - from microseconds (Set), from (seconds, microseconds),
+   from milliseconds (the SelectServer overloads), operator+ (TimerAdd), operator*(unsigned) - out of arguments that
+   respect the constructors' contracts (non-negative, microsecond field < 10^6) the struct is normalised and denotes
+   exactly the arithmetic value (TimeVal.idenote); TimerAdd of normalised values (deadline = now + interval) and
+   timercmp (deadline <= now) agree with +, <= on microseconds.  Hence the microsecond model of Model.v. *)
+Theorem c16_timeval :
+  (forall e, iwf e -> tv_norm (ieval e) /\ tv_us (ieval e) = idenote e /\ (0 <= idenote e)%Z) /\
+  (forall a b, tv_norm a -> tv_norm b -> tv_norm (tv_add a b) /\ tv_us (tv_add a b) = (tv_us a + tv_us b)%Z) /\
+  (forall a i, tv_norm a -> (0 <= i)%Z -> tv_norm (tv_mul a i) /\ tv_us (tv_mul a i) = (tv_us a * i)%Z) /\
+  (forall a b, tv_norm a -> tv_norm b -> (tv_leb a b = true <-> (tv_us a <= tv_us b)%Z)).
+Proof. exact (conj ieval_ok (conj tv_add_ok (conj tv_mul_ok tv_leb_ok))). Qed.
+Print Assumptions c16_timeval.
+
+Example c16_timeval_ex :
+  tv_us (ieval (IMul (IUs 200000) 20)) = 4000000%Z /\ ieval (IMul (IUs 200000) 20) = mkTv 4 0 /\
+  ieval (IAdd (IPair 1 600000) (IMs 1500)) = mkTv 3 100000.
+Proof. vm_compute. repeat split; reflexivity. Qed.
+
 (* Scale does not matter (the theorems above hold for any number of timers / pending cancellations); a concrete
    instance: 33 cancelled timers are still queued when a repeating timer cancels itself inside its own callback
    (the 34th pending cancellation) and returns true: it runs once and never again, none of the 33 ever runs. *)
@@ -338,7 +357,7 @@ Print Assumptions c16_read_takes_queue_prefix.
 Theorem c16_close_reported :
   forall (c : p_cfg) (d : nat) (desc : bool),
     (forall d' a, In a (pc_rs (p_get c d') ++ pc_ws (p_get c d') ++ pc_cs (p_get c d')) -> p_act_target a <> d) ->
-    d < length c -> length c <= p_max_events ->
+    d < length c -> length c <= p_max_events -> p_refused c d = false ->
     (forall s, st_be s = false -> s_c (st_sel s) d = SPres ->
        st_closed s d = true -> st_pend s d = [] -> st_onclose s d = true -> st_del s d = false ->
        exists e, In e (st_log (p_step c s (POPoll desc))) /\ le_d e = d /\ le_kind e = PKClose) /\
@@ -348,9 +367,9 @@ Theorem c16_close_reported :
        st_closed s d = true -> st_pend s d = [] -> st_onclose s d = true -> st_del s d = false ->
        exists e, In e (st_log (p_step c s (POPoll desc))) /\ le_d e = d /\ le_kind e = PKClose).
 Proof.
-  intros c d desc G L LM. split.
+  intros c d desc G L LM NR. split.
   - intros s B C1 C2 C3 C4 C5. apply (p_sel_close_reported c d s desc G L). constructor; auto.
-  - intros ops id s M C R E C2 C3 C4 C5. apply (p_ep_close_reported c ops d id desc LM G L).
+  - intros ops id s M C R E C2 C3 C4 C5. apply (p_ep_close_reported c ops d id desc NR LM G L).
     constructor; auto. exact (proj1 (p_inv_run c true ops)). repeat split; auto.
 Qed.
 Print Assumptions c16_close_reported.
@@ -366,11 +385,12 @@ Print Assumptions c16_close_reported.
 Theorem c16_close_reported_history :
   forall (c : p_cfg) (ops : list p_op) (d : nat) (desc be : bool),
     (forall d' a, In a (pc_rs (p_get c d') ++ pc_ws (p_get c d') ++ pc_cs (p_get c d')) -> p_act_target a <> d) ->
-    d < length c -> length c <= p_max_events -> pc_conn (p_get c d) = true -> pc_doc (p_get c d) = false ->
+    d < length c -> length c <= p_max_events -> p_refused c d = false ->
+    pc_conn (p_get c d) = true -> pc_doc (p_get c d) = false ->
     let s := p_run be c ops in
     st_regr s d = true -> st_closed s d = true -> st_pend s d = [] -> st_onclose s d = true -> st_del s d = false ->
     exists e, In e (st_log (p_step c s (POPoll desc))) /\ le_d e = d /\ le_kind e = PKClose.
-Proof. exact (fun c ops d desc be G L LM => p_close_reported_history c ops d desc be LM G L). Qed.
+Proof. exact (fun c ops d desc be G L LM NR => p_close_reported_history c ops d desc be NR LM G L). Qed.
 Print Assumptions c16_close_reported_history.
 
 Example c16_close_reported_history_premises :
@@ -443,6 +463,8 @@ Qed.
          AddWrite (such a callback makes EPoller recycle the EPollData in the middle of its own event and the write
          callback of that iteration is skipped on epoll but not on select: proposed finding
          C16-epoll-write-skipped-after-reregister; any two of the three are fine);
+     G5  the epoll interface accepts x (x is not of kind PRef: a descriptor whose epoll_ctl(ADD) fails gets no
+         callbacks from EPoller at all, while SelectPoller, which has no registration step, serves it);
    p_ops_ok c ops: no top-level AddWrite on a pipe read end (G3).
    Proof: both models refine one single-descriptor abstract machine (PAbs.l_run), per descriptor.
    length c <= p_max_events (= EPoller::MAX_EVENTS = 10): with more ready descriptors than one epoll_wait batch holds,
@@ -532,6 +554,32 @@ Example c16_ex_epoll_batch :
   (length (p_log (p_run true c ops)), length (p_log (p_run false c ops)),
    map le_d (p_log (p_run true c ops))) = (10, 12, seq 0 10).
 Proof. vm_compute. reflexivity. Qed.
+
+(* A registration the epoll interface refuses (kind PRef: epoll_ctl fails, AddReadDescriptor returns false): the
+   descriptor is never in the kernel's ready list, so no event of a Poll belongs to it, whatever else is registered
+   before or after; SelectPoller treats it like any pipe.  (That no OTHER descriptor's event reaches its handler is
+   c16_registered_only together with the table invariants PWf/PProofs; the correspondence checks it on the real
+   poller with epoll_ctl made to fail.) *)
+Theorem c16_refused_never_ready : forall c s d id,
+  p_refused c d = true -> ep_map (st_ep s) d = Some id ->
+  (forall d', d' <> d -> ep_map (st_ep s) d' <> Some id) ->       (* the fd -> EPollData map is injective: PWf *)
+  forall ds, ~ In id (map fst (p_ep_ready c s ds)).
+Proof.
+  intros c s d id R M INJ. induction ds as [|x ds IH]; simpl; auto.
+  destruct (ep_map (st_ep s) x) as [i|] eqn:MX; auto.
+  destruct (p_flag_any (p_ep_flags c s (ep_obj (st_ep s) i) x)) eqn:FA; auto.
+  simpl. intros [E|H]; auto. subst i.
+  destruct (Nat.eq_dec x d) as [->|N]; [|apply (INJ x N MX)].
+  unfold p_ep_flags in FA. rewrite R in FA. discriminate.
+Qed.
+Print Assumptions c16_refused_never_ready.
+
+Example c16_ex_refused :
+  let c := [Build_p_dcfg PRef false false 9 [] [] []; Build_p_dcfg PPipe false false 9 [] [] []] in
+  let ops := [POAddR 0; POAddR 1; POWrite 0 [1%N]; POWrite 1 [2%N]; POPoll false; PORemR 0; POPoll false] in
+  map (fun e => (le_d e, le_bytes e)) (p_log (p_run true c ops)) = [(1, [2%N])] /\
+  map (fun e => (le_d e, le_bytes e)) (p_log (p_run false c ops)) = [(0, [1%N]); (1, [2%N])].
+Proof. vm_compute. split; reflexivity. Qed.
 
 (* Sanity checks kept from earlier rounds (bounded, by exhaustive evaluation): *)
 (* Both back-ends deliver, per descriptor, the same callbacks and the same bytes — proved here ONLY on a
